@@ -111,7 +111,7 @@ def fusion_guard(ctx, r):
                                 fp = True
         dg = f.direct_guard(f.nblock[s["i"]])
         dgs = expr_str(f, dg[0]) if dg else ""
-        if kw.get("IsKw2") is True and kw.get("IsKw1") is True and recv(s) == "pc" and dg is not None and dg[1] is True and dgs in ("kw1 && kw2", "kw2"):
+        if kw.get("IsKw2") is True and kw.get("IsKw1") is True and recv(s) == "pc" and dg is not None and dg[1] is True and dgs in ("kw1 && kw2", "kw2 && kw1", "kw2", "kw1"):
             word += 1
         elif fp and recv(s) == "pc":
             punct += 1
